@@ -87,6 +87,58 @@ fn main() {
             let stack: usize = arg_val(&args, "--stack").and_then(|s| s.parse().ok()).unwrap_or(2 << 20);
             std::process::exit(cosetmon::hostile::child_main(stack));
         }
+        "decode1" => {
+            // decode one input once on the main thread (used under cachegrind: deterministic
+            // instruction counts).  args: <type index> <file with hex>
+            let ti: usize = args.get(2).and_then(|s| s.parse().ok()).unwrap_or(0);
+            let hx = std::fs::read_to_string(args.get(3).expect("hex file")).expect("read hex file");
+            let bytes = rcbor::unhex(hx.trim()).expect("hex");
+            let types = cosetmon::hostile::all_types_indexed();
+            mon::install_panic_hook();
+            let r = cosetmon::capi::from_slice(types[ti % types.len()], &bytes);
+            println!("{}", if r.is_ok() { "accepted" } else { "rejected" });
+        }
+        "ramps" => {
+            // JSON description of a few bomb ramps for the instruction-count engine (E7i)
+            use cosetmon::hostile as h;
+            let types = h::all_types_indexed();
+            let ti = |t: cosetmon::model::Ty| types.iter().position(|x| *x == t).unwrap_or(0) as u64;
+            let mut ramps: Vec<J> = Vec::new();
+            for form in 0..3u8 {
+                let pts: Vec<J> = [16usize, 64, 256, 512, 1024, 2048, 4096, 8192].iter().map(|d| {
+                    let b = h::b1_header(*d, form);
+                    J::Arr(vec![J::UInt(b.len() as u64), J::Str(rcbor::hex(&b))])
+                }).collect();
+                ramps.push(J::obj(vec![("name", J::Str(format!("B1 form {} in Header", form))), ("ti", J::UInt(ti(cosetmon::model::Ty::Header))), ("points", J::Arr(pts))]));
+            }
+            for fam in [1u8, 3, 4, 5, 6, 7, 8, 10, 11, 12, 13] {
+                let mut name = "";
+                let mut t = cosetmon::model::Ty::Header;
+                let pts: Vec<J> = [128usize, 256, 512, 1024, 2048, 4096, 8192, 16384, 32768].iter().map(|n| {
+                    let (ty, b, nm) = h::b7_flat(fam, *n);
+                    name = nm;
+                    t = ty;
+                    J::Arr(vec![J::UInt(b.len() as u64), J::Str(rcbor::hex(&b))])
+                }).collect();
+                ramps.push(J::obj(vec![("name", J::Str(format!("B7 {}", name))), ("ti", J::UInt(ti(t))), ("points", J::Arr(pts))]));
+            }
+            println!("{}", J::Arr(ramps).to_string());
+        }
+        "miniwork" => {
+            // small single-threaded workload for interpreters (Miri) and memcheck: generated and
+            // mutated messages through every entry point, follow-ups and the fixed-point oracle.
+            // args: <ops> <seed>
+            let ops: u64 = args.get(2).and_then(|s| s.parse().ok()).unwrap_or(20);
+            let seed: u64 = args.get(3).and_then(|s| s.parse().ok()).unwrap_or(1);
+            let bad = cosetmon::hostile::miniwork(ops, seed);
+            println!("miniwork: {} ops, {} problems", ops, bad.len());
+            for b in &bad {
+                println!("PROBLEM {}", b);
+            }
+            if !bad.is_empty() {
+                std::process::exit(1);
+            }
+        }
         "explain" => {
             // cosetmon explain <Type> <hex>: independent parse, model verdict, crate result
             use cosetmon::model::{self, Ty};
